@@ -339,6 +339,18 @@ func (r *runner) dataQueries(ob M, budget int, ds *DataState) {
 		}
 		singles = append(singles, M{"q": "Resolver", "id": x["id"], "err": false, "url": res.Resolver.Url, "manager": mgr})
 	}
+	// the conversion queries on every pool entry (anchored or not): IRI -> hash is the pool's
+	// content hash, hash -> IRI is the pool's IRI
+	for _, n := range []string{"i1", "i2", "i3", "i4", "i5", "i6"} {
+		r1, e1 := dq.ConvertIRIToHash(ctx, &data.ConvertIRIToHashRequest{Iri: poolIRI(n)})
+		r2, e2 := dq.ConvertHashToIRI(ctx, &data.ConvertHashToIRIRequest{ContentHash: poolHash(n)})
+		m := M{"q": "Convert", "iri": n, "err": e1 != nil || e2 != nil, "same_hash": false, "riri": ""}
+		if e1 == nil && e2 == nil {
+			m["same_hash"] = r1.ContentHash != nil && r1.ContentHash.String() == poolHash(n).String()
+			m["riri"] = abstractIRI(r2.Iri)
+		}
+		singles = append(singles, m)
+	}
 	ob["singles"] = singles
 }
 
